@@ -101,8 +101,10 @@ fn front_end(text: &str) -> Result<Outcome, String> {
     match r {
         Ok(x) => x,
         Err(p) => {
-            if p.contains(UNCLOSED) {
+            if p.contains(UNCLOSED) && crate::lexer::unterminated(text) {
                 Ok(Outcome::ParseErr("documented panic: unclosed comment".into()))
+            } else if p.contains(UNCLOSED) {
+                Err(format!("the panic documented for an unterminated block comment on a text whose comments are all terminated (Lexer!Unterminated is FALSE): {}", p))
             } else {
                 Err(format!("panic: {}", p))
             }
